@@ -3,133 +3,161 @@
 (* The toolkit as one state machine: the frame in which the family modules *)
 (* live.  The state is the user's WORKSPACE                                *)
 (*                                                                         *)
-(*   docs     name -> abstract document (a record of sections)             *)
-(*   target   the generation target directory (Regen: path -> content)     *)
-(*   pkgs     Go packages with swagger annotations (name -> document they  *)
-(*            denote, cf. Annot!ExpectedOp / GoTypes)                      *)
-(*   reports  the outputs of `diff` (DiffPipeline)                         *)
-(*   server   what a compiled generated server embeds and enforces         *)
-(*            (Embed, Security, SimpleParam/Request)                       *)
+(*   docs     name -> document file (what it means, how it is rendered,    *)
+(*            how its $refs are laid out)                                  *)
+(*   target   the generation target directory: which artefacts it holds,   *)
+(*            from which document they were generated, and the user's own  *)
+(*            files                                                        *)
+(*   embOrig, embFlat   the two documents a generated server embeds        *)
+(*   report, exit       output and exit status of the last command         *)
 (*                                                                         *)
-(* and every CLI command / library entry point is one action.  The actions *)
-(* are abstract here (a document is an opaque value with the few           *)
-(* attributes the commands care about); each is REFINED by a family module *)
-(* that is model-checked on its own and bound to the code by a trace spec: *)
+(* and every CLI command is one action.  The actions are abstract here (a  *)
+(* document is an opaque MEANING with a rendering and a $ref layout); each *)
+(* is REFINED by a family module that is model-checked on its own and      *)
+(* bound to the code by its own trace spec:                                *)
 (*                                                                         *)
-(*   GenerateServer/Client/Model/...  Regen (C11), BuildMatrix (C01),      *)
+(*   GenerateServer/Client/Models     Regen (C11), BuildMatrix (C01),      *)
 (*                                    Names (C08), GoLex (C09), Embed (C10)*)
 (*   the generated program            JsonSchema (C02 C05), SimpleParam    *)
 (*                                    and Request (C03 C04), Security (C06)*)
-(*   GenerateSpec                     Annot (C17), GoTypes (C16),          *)
+(*   GenerateSpecFromModels           Annot (C17), GoTypes (C16),          *)
 (*                                    JsonSchema!SchemaDiffs (C18)         *)
-(*   Flatten / Expand / Mixin / Init  YamlScalars (C19)                    *)
+(*   Flatten / Expand / Mixin         YamlScalars (C19)                    *)
 (*   Diff                             DiffModel, DiffPipeline (C12-C15)    *)
 (*   every command                    Determinism (C07)                    *)
 (*                                                                         *)
-(* The frame itself is model-checked with small constants (MCGoSwagger):   *)
-(* it states how the commands compose - which artefacts a command reads    *)
-(* and writes, that no command but a generation touches the target, that   *)
-(* a document's meaning is invariant under the format-changing and         *)
-(* $ref-restructuring commands, that the round trips                       *)
-(*   spec -> generate model -> generate spec      (C18)                    *)
-(*   spec -> generate server -> embedded spec     (C10)                    *)
-(*   doc  -> flatten/expand -> doc                (C19 / growth item)      *)
-(* return to the same meaning, and that diff of two documents with the     *)
-(* same meaning is empty (C12).                                            *)
+(* The frame itself is model-checked with small constants (MCGoSwagger)    *)
+(* and bound to the real CLI by TraceGoSwagger: TLC generates command      *)
+(* histories (hist), the harness executes them with the real `swagger`     *)
+(* binary in one workspace and logs, after every command, the abstraction  *)
+(* of every file; the trace spec replays the same action and compares.     *)
+(* The frame states how the commands COMPOSE - which artefacts a command   *)
+(* reads and writes, that a document's meaning is invariant under the      *)
+(* format-changing and $ref-restructuring commands in any order, that what *)
+(* a server embeds is the document it was generated from whatever chain of *)
+(* commands produced that document, that diff of two renderings of one     *)
+(* document is empty, that no command touches the user's files.            *)
 (***************************************************************************)
-EXTENDS Integers, Sequences, FiniteSets, TLC
+EXTENDS Integers, Sequences, FiniteSets, TLC, Json
 
 CONSTANTS Meanings,       \* what a document denotes once $refs are resolved (opaque)
           DocNames,       \* names of document files in the workspace
+          UserFiles,
           MaxSteps
 
 Formats == {"json", "yaml"}
-Layouts == {"asis", "flat", "expanded"}          \* how the $refs are organised
+\* "refs": schemas shared through #/definitions; "inline": every $ref replaced by its target
+Layouts == {"refs", "inline"}
 
-\* a document: its meaning, its rendering, its $ref layout, and whether it was produced by the scanner
 Doc(m, f, l) == [meaning |-> m, fmt |-> f, layout |-> l]
-NoDoc == [meaning |-> "none", fmt |-> "json", layout |-> "asis"]
+NoDoc == [meaning |-> "none", fmt |-> "json", layout |-> "refs"]
+\* two files are JSON-equal documents iff they have the same content
+Content(d) == <<d.meaning, d.layout>>
 
 VARIABLES docs,       \* DocNames -> document or NoDoc
-          target,     \* [models |-> meaning or "none", server |-> ..., client |-> ..., user |-> set of user files]
-          embedded,   \* the document a compiled generated server embeds / serves
-          report,     \* last diff report: [kind |-> "none" | "empty" | "diff", old, new]
+          target,     \* [models, server, client : Content or <<"none">>, user : set of user files]
+          embOrig,    \* Content of the original document a generated server embeds, or <<"none">>
+          embFlat,    \* meaning of the flattened document that drives the generated server, or "none"
+          report,     \* [kind |-> "none" | "empty" | "diff" | "layout"]
           exit,       \* exit status of the last command
-          steps
-fvars == <<docs, target, embedded, report, exit, steps>>
+          hist
+fvars == <<docs, target, embOrig, embFlat, report, exit, hist>>
 
+Nothing == <<"none">>
 Present(n) == docs[n].meaning # "none"
 
 Init ==
-  /\ docs \in {d \in [DocNames -> {Doc(m, f, "asis") : m \in Meanings, f \in Formats} \cup {NoDoc}] : \E n \in DocNames : d[n].meaning # "none"}
-  /\ target = [models |-> "none", server |-> "none", client |-> "none", user |-> {}]
-  /\ embedded = "none" /\ report = [kind |-> "none"] /\ exit = 0 /\ steps = 0
+  /\ docs \in {d \in [DocNames -> {Doc(m, f, "refs") : m \in Meanings, f \in Formats} \cup {NoDoc}] : \E n \in DocNames : d[n].meaning # "none"}
+  /\ target = [models |-> Nothing, server |-> Nothing, client |-> Nothing, user |-> {}]
+  /\ embOrig = Nothing /\ embFlat = "none" /\ report = [kind |-> "none"] /\ exit = 0
+  /\ hist = <<[a |-> "init", docs |-> docs]>>
 
-Tick == steps < MaxSteps /\ steps' = steps + 1
+Room == Len(hist) <= MaxSteps
+Log(e) == hist' = Append(hist, e)
 
-\* ---- spec -> spec commands: the meaning is preserved, format / layout as requested (C19) ----
-Transform(src, dst, f, l) ==
-  /\ Tick /\ Present(src)
+\* ---- spec -> spec commands: the meaning is preserved; format as requested; layout per command ----
+Transform(cmd, src, dst, f, l) ==
+  /\ Room /\ Present(src)
   /\ docs' = [docs EXCEPT ![dst] = Doc(docs[src].meaning, f, l)]
-  /\ exit' = 0 /\ UNCHANGED <<target, embedded, report>>
-Flatten(src, dst, f) == Transform(src, dst, f, "flat")
-Expand(src, dst, f)  == Transform(src, dst, f, "expanded")
-\* mixin: the primary document extended by the others; with one input it is the identity on the meaning
-Mixin(src, dst, f)   == Transform(src, dst, f, docs[src].layout)
+  /\ exit' = 0 /\ Log([a |-> cmd, src |-> src, dst |-> dst, fmt |-> f])
+  /\ UNCHANGED <<target, embOrig, embFlat, report>>
+\* minimal flattening of a self-contained document leaves its $ref layout alone
+Flatten(src, dst, f) == Transform("flatten", src, dst, f, docs[src].layout)
+Expand(src, dst, f)  == Transform("expand", src, dst, f, "inline")
+\* mixin: the primary document extended by the others; with an empty secondary it is the identity
+Mixin(src, dst, f)   == Transform("mixin", src, dst, f, docs[src].layout)
 
-\* ---- generation (C01 C08 C09 C10 C11) ----
-GenerateModels(src) ==
-  /\ Tick /\ Present(src)
-  /\ target' = [target EXCEPT !.models = docs[src].meaning]
-  /\ exit' = 0 /\ UNCHANGED <<docs, embedded, report>>
-GenerateServer(src) ==
-  /\ Tick /\ Present(src)
-  /\ target' = [target EXCEPT !.models = docs[src].meaning, !.server = docs[src].meaning]
-  /\ embedded' = docs[src].meaning                \* the embedded spec is the input spec (C10)
-  /\ exit' = 0 /\ UNCHANGED <<docs, report>>
-GenerateClient(src) ==
-  /\ Tick /\ Present(src)
-  /\ target' = [target EXCEPT !.models = docs[src].meaning, !.client = docs[src].meaning]
-  /\ exit' = 0 /\ UNCHANGED <<docs, embedded, report>>
+\* ---- generation ----
+Generate(kind, src) ==
+  /\ Room /\ Present(src)
+  /\ target' = [target EXCEPT !.models = Content(docs[src]),
+                              !.server = IF kind = "server" THEN Content(docs[src]) ELSE @,
+                              !.client = IF kind = "client" THEN Content(docs[src]) ELSE @]
+  /\ embOrig' = IF kind = "server" THEN Content(docs[src]) ELSE embOrig      \* the embedded spec is the input spec (C10)
+  /\ embFlat' = IF kind = "server" THEN docs[src].meaning ELSE embFlat
+  /\ exit' = 0 /\ Log([a |-> "generate", kind |-> kind, src |-> src])
+  /\ UNCHANGED <<docs, report>>
 UserAddsFile(u) ==
-  /\ Tick /\ target' = [target EXCEPT !.user = @ \cup {u}]
-  /\ UNCHANGED <<docs, embedded, report, exit>>
+  /\ Room /\ u \notin target.user
+  /\ target' = [target EXCEPT !.user = @ \cup {u}]
+  /\ Log([a |-> "user_add", u |-> u])
+  /\ UNCHANGED <<docs, embOrig, embFlat, report, exit>>
 
 \* ---- code -> spec (C16 C17 C18): scanning the generated models gives back the definitions ----
+\* (refined by JsonSchema!SchemaDiffs; not part of the replayed histories: the scanned document has
+\* definitions only, its relation to the input is C18's subject)
 GenerateSpecFromModels(dst, f) ==
-  /\ Tick /\ target.models # "none"
-  /\ docs' = [docs EXCEPT ![dst] = Doc(target.models, f, "asis")]
-  /\ exit' = 0 /\ UNCHANGED <<target, embedded, report>>
+  /\ Room /\ target.models # Nothing
+  /\ docs' = [docs EXCEPT ![dst] = Doc(target.models[1], f, "refs")]
+  /\ exit' = 0 /\ Log([a |-> "generate_spec", dst |-> dst, fmt |-> f])
+  /\ UNCHANGED <<target, embOrig, embFlat, report>>
 
-\* ---- diff (C12-C15): a function of the two meanings; empty iff they are equal ----
+\* ---- diff (C12-C15): a function of the two documents ----
+\* JSON-equal documents: empty report, exit 0 (C12).  Different meanings: a report (the meanings of
+\* the model differ by a breaking change: exit non-zero, C13/C15).  Same meaning in different $ref
+\* layouts: the tool compares named and anonymous schemas as different types - a report.
+\* Breaks: pairs of meanings <<old, new>> where new rejects a request old accepted (C13): exit non-zero.
+\* Across $ref layouts the exit status is not specified by the frame.
+CONSTANT Breaks
+DiffExits(da, db) ==
+  IF Content(da) = Content(db) THEN {0}
+  ELSE IF da.layout # db.layout THEN {0, 1}
+  ELSE IF <<da.meaning, db.meaning>> \in Breaks THEN {1} ELSE {0}
 Diff(a, b) ==
-  /\ Tick /\ Present(a) /\ Present(b)
-  /\ report' = IF docs[a].meaning = docs[b].meaning THEN [kind |-> "empty"] ELSE [kind |-> "diff", old |-> docs[a].meaning, new |-> docs[b].meaning]
-  /\ exit' = IF docs[a].meaning = docs[b].meaning THEN 0 ELSE 1      \* breaking-ness refined by DiffModel
-  /\ UNCHANGED <<docs, target, embedded>>
+  /\ Room /\ Present(a) /\ Present(b)
+  /\ report' = IF Content(docs[a]) = Content(docs[b]) THEN [kind |-> "empty"]
+               ELSE IF docs[a].meaning = docs[b].meaning THEN [kind |-> "layout"]
+               ELSE [kind |-> "diff"]
+  /\ exit' \in DiffExits(docs[a], docs[b])
+  /\ Log([a |-> "diff", x |-> a, y |-> b])
+  /\ UNCHANGED <<docs, target, embOrig, embFlat>>
 
-Next ==
+Replayable ==
   \/ \E s, d \in DocNames, f \in Formats : Flatten(s, d, f) \/ Expand(s, d, f) \/ Mixin(s, d, f)
-  \/ \E s \in DocNames : GenerateModels(s) \/ GenerateServer(s) \/ GenerateClient(s)
-  \/ \E d \in DocNames, f \in Formats : GenerateSpecFromModels(d, f)
+  \/ \E s \in DocNames : \E k \in {"models", "server", "client"} : Generate(k, s)
   \/ \E a, b \in DocNames : Diff(a, b)
-  \/ \E u \in {"u1", "u2"} : UserAddsFile(u)
+  \/ \E u \in UserFiles : UserAddsFile(u)
+Next == Replayable \/ \E d \in DocNames, f \in Formats : GenerateSpecFromModels(d, f)
 
 Spec == Init /\ [][Next]_fvars
+ReplaySpec == Init /\ [][Replayable]_fvars
 
 (* ---- properties of the frame ---- *)
-\* no command invents a meaning: every document / artefact denotes one of the initial meanings
-InitialMeanings == {m \in Meanings : TRUE}
+\* no command invents a meaning
 Closed == /\ \A n \in DocNames : docs[n].meaning \in Meanings \cup {"none"}
-          /\ target.models \in Meanings \cup {"none"} /\ embedded \in Meanings \cup {"none"}
-\* C10 at frame level: what the server embeds is the meaning of the document it was generated from
-EmbeddedIsServerSpec == target.server # "none" => embedded = target.server
+          /\ embFlat \in Meanings \cup {"none"}
+\* C10 at frame level: what the server embeds is the document it was generated from
+EmbeddedIsServerSpec == target.server # Nothing => embOrig = target.server /\ embFlat = target.server[1]
 \* C11 at frame level: user files only grow
 UserFilesKept == [][target.user \subseteq target'.user]_fvars
-\* C12 at frame level: an empty report iff equal meanings; exit status coherent with the report (C15)
-ReportCoherent == report.kind = "diff" => report.old # report.new
-\* C19 at frame level: spec -> spec commands never change a meaning that other documents have
-\* (stated as an action property: the meaning written is the meaning read)
+\* C12 at frame level: an empty report iff JSON-equal documents; exit status coherent with the report
+ReportCoherent == hist[Len(hist)].a = "diff" =>
+                    (report.kind = "empty" => exit = 0)
+\* spec -> spec commands never invent a meaning, and write one document only
 MeaningPreserved ==
-  [][\A n \in DocNames : docs'[n] # docs[n] => docs'[n].meaning \in {docs[m].meaning : m \in DocNames} \cup {target.models}]_fvars
+  [][\A n \in DocNames : docs'[n] # docs[n] => docs'[n].meaning \in {docs[m].meaning : m \in DocNames} \cup {target.models[1]}]_fvars
+OneDocWritten == [][Cardinality({n \in DocNames : docs'[n] # docs[n]}) <= 1]_fvars
+MCBreaks == {<<"m1", "m2">>}
+\* histories for replay: printed when complete
+EmitHist == Len(hist) = MaxSteps + 1 => PrintT(<<"CASE", ToJson([hist |-> hist])>>)
 =============================================================================
